@@ -890,6 +890,85 @@ pub open spec fn version_of(t: SortedWritesTable) -> (nat, nat) { (t.generation.
 //@ end-fn
 //@ end-impl
 
+
+// ---------------- constraint evaluation on a row (constrained scans, C16; the NOT_SUBSUMED filter of C13) ---------
+//@ item core-relations/src/table_spec.rs enum Constraint
+pub open spec fn cols_ok(c: Constraint, n: nat) -> bool {
+    match c {
+        Constraint::Eq { l_col, r_col } => l_col.ix() < n && r_col.ix() < n,
+        Constraint::EqConst { col, val } => col.ix() < n,
+        Constraint::LtConst { col, val } => col.ix() < n,
+        Constraint::GtConst { col, val } => col.ix() < n,
+        Constraint::LeConst { col, val } => col.ix() < n,
+        Constraint::GeConst { col, val } => col.ix() < n,
+    }
+}
+/// meaning of a constraint on a row (written from the documentation of `Constraint`)
+pub open spec fn sat(c: Constraint, row: Seq<Value>) -> bool {
+    match c {
+        Constraint::Eq { l_col, r_col } => row[l_col.ix() as int].ix() == row[r_col.ix() as int].ix(),
+        Constraint::EqConst { col, val } => row[col.ix() as int].ix() == val.ix(),
+        Constraint::LtConst { col, val } => row[col.ix() as int].ix() < val.ix(),
+        Constraint::GtConst { col, val } => row[col.ix() as int].ix() > val.ix(),
+        Constraint::LeConst { col, val } => row[col.ix() as int].ix() <= val.ix(),
+        Constraint::GeConst { col, val } => row[col.ix() as int].ix() >= val.ix(),
+    }
+}
+pub open spec fn sat_all(cs: Seq<Constraint>, row: Seq<Value>) -> bool { forall|i: int| 0 <= i < cs.len() ==> sat(#[trigger] cs[i], row) }
+
+/// Iterator::all over a slice for a closure (R-ITERALL): a verified loop, hand-written (not /repo code)
+pub fn vc_all<T, F: Fn(&T) -> bool>(xs: &[T], f: F) -> (r: bool)
+    requires forall|i: int| 0 <= i < xs@.len() ==> f.requires((&#[trigger] xs@[i],)),
+    ensures
+        r ==> forall|i: int| 0 <= i < xs@.len() ==> f.ensures((&#[trigger] xs@[i],), true),
+        !r ==> exists|i: int| 0 <= i < xs@.len() && f.ensures((&#[trigger] xs@[i],), false),
+{
+    let mut i: usize = 0;
+    while i < xs.len()
+        invariant
+            i <= xs@.len(),
+            forall|j: int| 0 <= j < xs@.len() ==> f.requires((&#[trigger] xs@[j],)),
+            forall|j: int| 0 <= j < i ==> f.ensures((&#[trigger] xs@[j],), true),
+        decreases xs@.len() - i
+    {
+        if !f(&xs[i]) { return false; }
+        i += 1;
+    }
+    true
+}
+
+//@ impl core-relations/src/table/mod.rs impl SortedWritesTable
+//@ fn eval_constraints
+//@ ret r
+//@ rewrite R-ITERALL
+//@ rewrite R-CLOSANN 0 &Constraint bool
+//@ at sig
+        requires forall|i: int| 0 <= i < cs@.len() ==> cols_ok(#[trigger] cs@[i], row@.len()),
+        ensures r == sat_all(cs@, row@),
+//@ at closure 0 spec
+            requires cols_ok(*constraint, row@.len())
+            ensures r == sat(*constraint, row@)
+//@ end-fn
+//@ fn get_if
+//@ ret r
+//@ at sig
+        requires row.ix() < self.data@.len(), self.data@[row.ix() as int].len() > 0,
+            forall|i: int| 0 <= i < cs@.len() ==> cols_ok(#[trigger] cs@[i], self.data@[row.ix() as int].len()),
+        ensures match r {
+            // a row is handed out iff it is live and satisfies every constraint
+            Some(x) => x@ == self.data@[row.ix() as int] && !stale(x@) && sat_all(cs@, x@),
+            None => stale(self.data@[row.ix() as int]) || !sat_all(cs@, self.data@[row.ix() as int]),
+        }
+//@ end-fn
+//@ fn eval
+//@ ret r
+//@ at sig
+        requires row.ix() < self.data@.len(), self.data@[row.ix() as int].len() > 0,
+            forall|i: int| 0 <= i < cs@.len() ==> cols_ok(#[trigger] cs@[i], self.data@[row.ix() as int].len()),
+        ensures r == (!stale(self.data@[row.ix() as int]) && sat_all(cs@, self.data@[row.ix() as int])),
+//@ end-fn
+//@ end-impl
+
 // ---------------- StagedOutputs::insert: the in-batch staging collision path -------------------------------------
 //@ item core-relations/src/table/mod.rs struct StagedOutputs
 impl StagedOutputs {
